@@ -252,9 +252,25 @@ void CaptureModulePayload::setData(const std::string_view deviceDescription,
     payloadData.resize(newSize);
 }
 
-bool CaptureModulePayload::isValidPayload([[maybe_unused]] const uint8_t* data, const size_t size)
+bool CaptureModulePayload::isValidPayload(const uint8_t* data, const size_t size)
 {
-    return (size >= sizeof(Header));
+    if (size < minPayloadSize)
+        return false;
+
+    // Device description, serial number, hardware version, software version and vendor data
+    // are each stored as a 16-bit length followed by that many bytes
+    size_t offset = sizeof(Header);
+    for (int i = 0; i < 5; ++i)
+    {
+        if (size - offset < sizeof(uint16_t))
+            return false;
+        const size_t length = (static_cast<size_t>(data[offset]) << 8) | data[offset + 1];
+        offset += sizeof(uint16_t);
+        if (size - offset < length)
+            return false;
+        offset += length;
+    }
+    return true;
 }
 
 const CaptureModulePayload::Header* CaptureModulePayload::getHeader() const
